@@ -527,8 +527,9 @@ NOTE = '''/-
                                                  SUBCLASS overriding these methods)
     len(text), text[:n]                         (truncate_string on the result of str(value) when `__str__` returns an
                                                  instance of a str subclass overriding `__len__` / `__getitem__`)
-    list(d.keys()), k in d, d[k] of an exact dict  (PyObj.dictItems is a plain list: a key whose `__hash__` raises after
-                                                 insertion makes the code take the guarded no-children path)
+    list(d.keys()), k in d, d[k] of an exact dict  (guarded by childrenGuarded in the source; PyObj.dictItems is a plain list,
+                                                 defined as what that idiom yields and EMPTY when it raises — a key whose
+                                                 `__hash__` raises after insertion: the walker applies the guard, not the model)
     id(value), type(value), str(total), frame.f_locals / f_lineno / f_code  (cannot run host code)
   The first three are unguarded in the source (notes/probes/p20_c06_assumed_not_to_raise.py shows each aborting a snapshot).
 -/
